@@ -117,6 +117,18 @@ CLAIMS = {
                 'against the native interpreter; whole-program behaviour follows by induction over steps.',
         'technique': 'bounded symbolic execution of rustc MIR (single-step lemmas) + z3 bit-vector obligations against a reference table',
     },
+    'C11': {
+        'text': 'On the MIR of opcodes_weight / opcodes_car_weight and of Executor::run_to_end / step: every opcode weighs >= 1; '
+                'a loop weighs exactly 1 + n * W(the next min(k, remaining) instructions) and a program the saturating sum '
+                'of its car weights (compositional lemmas, all u16 parameters); symbolic control-flow programs (Noop, PushI, '
+                'Jmp, Bez, Loop with symbolic gaps / body lengths, iteration counts in [0,2]) never execute more steps than '
+                'their weight on any path; the number of weigher calls on nested loops is compared with a polynomial budget '
+                '(known finding: it is exponential).',
+        'design_ref': 'DESIGN.md §8 C11',
+        'note': COMMON_NOTE + ' Programs <= 2 (thorough 3) instructions for steps-within-weight, loop nests <= 5 (7) for the weigher '
+                'cost; memory use is not observable with this technique (DESIGN §5.3).',
+        'technique': 'bounded symbolic execution of rustc MIR with call counting + z3 bit-vector obligations',
+    },
     'C12': {
         'text': 'Symbolic execution of the MIR of OpCode::decode (+ its closures, read_byte) and OpCode::encode: any buffer '
                 'whose front decodes to an instruction re-encodes to exactly the consumed bytes (all 49 opcodes, every '
